@@ -226,6 +226,44 @@ def main(tier, seed):
             if mod != obs:
                 ctx.diverge('reference rendering / table1 outcome', {'op': 'ref', 'job': job}, mod, obs)
 
+    # ---- part 2b: the same questions asked again after the model changed (nothing may be remembered from the first answer)
+    for typ in ('>', '<', '-', '<>'):
+        for n in (1, 2):
+            for move in ('rehome', 'detach'):
+                ta, tb, tc = Table('ta'), Table('tb'), Table('tc')
+                ca = [Column(f'a{i}', 'int') for i in range(n)]
+                cb = [Column(f'b{i}', 'int') for i in range(n)]
+                for c in ca:
+                    ta.add_column(c)
+                for c in cb:
+                    tb.add_column(c)
+                tc.add_column(Column('z', 'int'))
+                dbx = Database()
+                for t in (ta, tb, tc):
+                    dbx.add(t)
+                r = Reference(typ, ca, cb)
+                dbx.add(r)
+                first = {k: O.run(f) for k, f in (('table1', lambda: r.table1), ('dbml', lambda: r.dbml), ('sql', lambda: r.sql), ('db.sql', lambda: dbx.sql))}
+                ta.delete_column(ca[-1])
+                if move == 'rehome':
+                    tc.add_column(ca[-1])
+                second = {k: O.run(f) for k, f in (('table1', lambda: r.table1), ('dbml', lambda: r.dbml), ('sql', lambda: r.sql))}
+                ctx.case(core.h(['again', typ, n, move]), True, sample={'kind': typ, 'columns': n, 'move': move, 'second': {k: (v[0] if v[0] == 'ok' else v[1]) for k, v in second.items()}} if typ == '>' else None)
+                if any(v[0] != 'ok' for v in first.values()):
+                    ctx.fail('a consistent reference does not render', {'op': 'again', 'case': [typ, n, move]}, first={k: v[1] for k, v in first.items() if v[0] != 'ok'})
+                    continue
+                if move == 'rehome' and n > 1:
+                    want = {'table1': 'lib:DBMLError', 'dbml': 'lib:DBMLError'}
+                elif move == 'rehome':
+                    want = {'table1': 'ok', 'dbml': 'ok', 'sql': 'ok'}      # the single column moved: the side is consistent again
+                else:
+                    want = {'dbml': 'lib:TableNotFoundError', 'sql': 'lib:TableNotFoundError'}
+                for k, w in want.items():
+                    got = second[k][0] if second[k][0] == 'ok' else O.norm_class(second[k][1])
+                    if got != w:
+                        ctx.fail(f'after a column of the reference was {"moved to another table" if move == "rehome" else "removed from its table"}, '
+                                 f'asking .{k} again gives {got} instead of {w} (an earlier answer is remembered)', {'op': 'again', 'case': [typ, n, move]})
+
     # ---- part 3: get_refs on detached objects
     cases = []
     for has_table in (False, True):
